@@ -111,8 +111,10 @@ def main(run):
     for n in range(1, (10 if quick else 12) + 1):
         run.prove(f"inverted_grand[W={W},n={n}]", CS.sc_coalition_n, {"W": W, "n": n})
     run.prove(f"lemma.id_tricks[W={W}]", CS.lem_id_tricks, {"W": W}, lemma=True)
-    for n in ((1, 2, 3) if quick else (1, 2, 3, 4)):
+    for n in ((1, 2, 3, 4) if quick else (1, 2, 3, 4, 5)):
         run.prove(f"is_superadditive[n={n}]", CS.sc_pred_superadditive, {"n": n})
+        if n > 4:
+            continue
         run.prove(f"is_superadditive.exact[n={n}]", CS.sc_pred_superadditive, {"n": n, "rtol": 0, "atol": 0})
         run.prove(f"is_superadditive.tol[n={n}]", CS.sc_pred_superadditive, {"n": n, "rtol": 0.001, "atol": 0.5})
         if n <= 3:
